@@ -809,6 +809,9 @@ func writeControl(w io.Writer, data controlData) error {
 		"multiline": func(strs string) string {
 			var b strings.Builder
 			s := bufio.NewScanner(strings.NewReader(strings.TrimSpace(strs)))
+			// no line may be lost: the default limit of 64 KiB per line ends
+			// the scan silently
+			s.Buffer(nil, len(strs)+1)
 			s.Scan()
 			b.Write(bytes.TrimSpace(s.Bytes()))
 			for s.Scan() {
